@@ -791,7 +791,7 @@ def run(ctx):
     ctx.shrinker = shrink_case
     check_cases(ctx, cases)
     sessions = [copy.deepcopy(c) for c in SESSION_CORPUS]
-    for _ in range(350 if quick else 5000):
+    for _ in range(320 if quick else 4000):
         sessions.append(gen_session(rng))
     check_sessions(ctx, sessions)
     check_subst(ctx, [gen_subst_case(rng) for _ in range(3000 if quick else 40000)])
